@@ -204,6 +204,107 @@ def stream_history(ctx):
         ctx.stream_broken('history_shared', f'{len(st.disagreements)} disagreements; first: {json.dumps(st.disagreements[0], default=str)[:500]}')
 
 
+def stream_dsl(ctx):
+    """The formula as the USER writes it: Python operators, with plain numbers / booleans on either side (reflected
+    operators), must denote the tree the notation means: `2 - x` is Minus(2, x), `x ** 2` a constant power, `3 / x` a division."""
+    st = ctx.stream('dsl', 'formulas written with Python operators (binary + - * / ** & | and comparisons, unary -, exp, log) with plain '
+                    'int / float / bool literals on the left or the right; engine value vs enclosure of the INTENDED tree, and the built '
+                    'tree vs the intended one; non-trivial = at least one reflected operator (literal on the left)')
+    rng = ctx.sub_rng('dsl')
+
+    def leaf():
+        r = rng.random()
+        if r < 0.35:
+            return {'h': ['Var', rng.choice(['x1', 'x2', 'x3'])], 'k': []}
+        if r < 0.6:
+            return {'h': ['Beta', rng.choice(['b1', 'b2']), False], 'k': []}
+        m = rng.choice([1, 2, 3, 5, -1, -3, 0])
+        kind = rng.choice(['int', 'float', 'bool', None]) if m in (0, 1) else rng.choice(['int', 'float', None])
+        e = 0 if kind in ('int', 'bool') else rng.choice([0, -1, -2])
+        n = {'h': ['Num'] + norm_dy([m, e]), 'k': []}
+        if kind:
+            n['lit'] = kind
+        return n
+
+    def is_lit(n):
+        return n['h'][0] == 'Num' and 'lit' in n
+
+    def gen(d):
+        if d <= 0 or rng.random() < 0.25:
+            return leaf()
+        r = rng.random()
+        if r < 0.1:
+            a = gen(d - 1)
+            if is_lit(a):
+                a = {'h': ['Var', 'x1'], 'k': []}
+            return {'h': ['Un', 'UMinus'], 'k': [a]}
+        if r < 0.18:
+            return {'h': ['Un', 'Exp'], 'k': [expr_not_lit(gen(d - 1))]}
+        op = rng.choice(['Plus', 'Minus', 'Times', 'Divide', 'Minus', 'Divide', 'And', 'Or', 'Eq', 'Ne', 'Le', 'Ge', 'Lt', 'Gt', 'BMin', 'BMax'])
+        a, b = gen(d - 1), gen(d - 1)
+        if is_lit(a) and is_lit(b):
+            b = {'h': ['Var', 'x2'], 'k': []}       # Python would fold two literals itself
+        if op in ('BMin', 'BMax'):
+            a = expr_not_lit(a)
+        if op == 'Divide':
+            # denominator away from zero: exp(...) or a non-zero literal
+            if is_lit(b):
+                if b['h'][1] == 0:
+                    b['h'] = ['Num', 1, 0]
+            else:
+                b = {'h': ['Un', 'Exp'], 'k': [b if not is_lit(b) else {'h': ['Var', 'x3'], 'k': []}]}
+        return {'h': ['Bin', op], 'k': [a, b]}
+
+    def expr_not_lit(n):
+        return {'h': ['Var', 'x3'], 'k': []} if is_lit(n) else n
+
+    def reflected(n):
+        return (n['h'][0] == 'Bin' and is_lit(n['k'][0])) or any(reflected(k) for k in n['k'])
+
+    def comparisons_ok(n):
+        # Python evaluates `literal == expr` through expr.__eq__ (fine) -- but chained comparison objects are not formulas
+        return True
+
+    cases = []
+    for _ in range(ctx.n(120, 2500)):
+        t = gen(rng.choice([2, 3, 4]))
+        if is_lit(t):
+            t = {'h': ['Bin', 'Plus'], 'k': [t, {'h': ['Var', 'x1'], 'k': []}]}
+        betas = {'b1': {'value': 0.75, 'fixed': False}, 'b2': {'value': -1.5, 'fixed': False}}
+        rows = [{'x1': rng.choice([-2.0, -0.5, 0.25, 1.5, 3.0]), 'x2': rng.choice([-1.25, 0.5, 2.0]), 'x3': rng.choice([-0.75, 0.125, 1.0])} for _ in range(2)]
+        cases.append({'tree': t, 'betas': betas, 'rows': rows})
+    res = ctx.impl_cases('c01_dsl.py', cases, chunk=30)
+    vc, meta = [], []
+
+    def plain(n):
+        return {'h': n['h'], 'k': [plain(k) for k in n['k']]}
+
+    for c, r in zip(cases, res):
+        intended = plain(c['tree'])
+        st.record({'tree': c['tree'], 'rows': c['rows']}, nontrivial=reflected(c['tree']))
+        if 'crash' in r or 'build_exc' in r:
+            ctx.violation('C01/dsl/build', 'a formula written with Python operators cannot be built', c, None, r.get('crash') or r.get('build_exc'))
+            continue
+        benv = {k: v['value'] for k, v in c['betas'].items()}
+        if 'engine' in r:
+            for row, v in zip(c['rows'], r['engine']):
+                vc.append({'expr': intended, 'env': {'beta': benv, 'var': row}, 'observed': v})
+                meta.append(c)
+        elif 'engine_exc' in r:
+            for row in c['rows']:
+                vc.append({'expr': intended, 'env': {'beta': benv, 'var': row}, 'observed': 'error'})
+                meta.append(c)
+    bad = {}
+    for c, (v, info) in zip(meta, check_values(ctx, 'c01dsl', vc, relbits=-30)):
+        if v == 'differ' and id(c) not in bad:
+            bad[id(c)] = True
+            if ctx.violation(f'C01/dsl/value/{root_kind(c["tree"])}', 'a formula written with Python operators does not evaluate to the value '
+                             'the notation denotes', c, info, None):
+                st.disagree({'tree': c['tree']}, info, None)
+    if st.disagreements:
+        ctx.stream_broken('dsl', f'{len(st.disagreements)} disagreements; first: {json.dumps(st.disagreements[0], default=str)[:500]}')
+
+
 def stream_phi_grid(ctx):
     st = ctx.stream('phi_grid', 'dyadic grid on [-9, 9]: scipy norm.cdf and the engine\'s bioNormalCdf vs the interval extension '
                     'PhiI_series (cross-check of a TRUSTED component); non-trivial = |x| > 1/8; distinct by x')
@@ -269,6 +370,7 @@ def run(ctx):
     stream_stale(ctx)
     stream_phi_grid(ctx)
     stream_history(ctx)
+    stream_dsl(ctx)
 
 
 def replay(ctx, path):
